@@ -300,9 +300,30 @@ async fn main() {
             nontrivial: !o.script.rules.is_empty() && o.rule_hits.iter().any(|h| *h > 0) || o.script.cexp != Expect::None || o.script.sexp != Expect::None,
             key: o.script.name.clone(), kind });
     }
+    // a harness-played DTLS server that really completes the handshake with its own key
+    use dtls_hs::impostor::{self, Mode};
+    let reps = if args.tier == "thorough" { 6 } else { 2 };
+    let mut jobs = vec![];
+    for _ in 0..reps { for m in [Mode::Genuine, Mode::StolenCert, Mode::OwnCert, Mode::BadFinished] { jobs.push(tokio::spawn(impostor::run(m))); } }
+    let mut imp_stat = std::collections::BTreeMap::<String, usize>::new();
+    for (i, j) in jobs.into_iter().enumerate() {
+        let o = j.await.expect("impostor task");
+        *imp_stat.entry(format!("{:?}:{}", o.mode, o.client_state)).or_default() += 1;
+        let fail = match o.mode {
+            Mode::Genuine => if o.client_state == 2 && o.client_exported && o.app_from_impostor_delivered && o.client_finished_ok == Some(true) { None }
+                else { Some(format!("control failed: the harness-played server holding the pinned key could not connect a rustrtc client (state {}, client Finished ok {:?})", o.client_state, o.client_finished_ok)) },
+            _ => if o.client_state == 2 || o.client_exported || o.app_from_impostor_delivered {
+                    Some(format!("client authenticated an impostor ({:?}): state {}, exported {}, application data accepted {}", o.mode, o.client_state, o.client_exported, o.app_from_impostor_delivered))
+                } else if o.client_state != 3 { Some(format!("impostor ({:?}) presented itself in sequence but the client did not end Failed (state {})", o.mode, o.client_state)) } else { None },
+        };
+        out.push(Case { term: "-".into(), desc: json!({"impostor": format!("{:?}", o.mode), "client_state": o.client_state, "exported": o.client_exported,
+                "impostor_sent_finished": o.impostor_finished_sent, "client_finished_verified_by_impostor": o.client_finished_ok,
+                "app_data_from_impostor_delivered": o.app_from_impostor_delivered, "elapsed_s": o.elapsed}),
+            oracle_fail: fail, known: None, nontrivial: true, key: format!("impostor {:?} #{}", o.mode, i), kind: "impostor".into() });
+    }
     let nfp = if args.tier == "thorough" { 30000 } else { 3000 };
     let fpstat = fp_cases(&mut out, &mut rng, nfp);
     out.finish(json!({"generator": {"pair_scripts_by_kind": dist, "final_state_pairs(client/server; 1=Handshaking 2=Connected 3=Failed 4=Closed)": finals,
-        "pair_harness_wall_s": wall, "fingerprint": fpstat,
+        "pair_harness_wall_s": wall, "fingerprint": fpstat, "impostor(mode:client_state)": imp_stat,
         "tampering": "certificate replacement, re-signing by an impostor, bit flips in randoms / ECDH share / signature / session id / sealed Finished, message omission + re-sequencing, extension stripping, forged plaintext Finished / ApplicationData / close_notify / HelloVerifyRequest / Certificate, sealed garbage"}}));
 }
